@@ -9,6 +9,7 @@ pub mod c09;
 pub mod c10;
 pub mod c11;
 pub mod c12;
+pub mod c13;
 pub mod c14;
 pub mod c15;
 pub mod c16;
@@ -29,6 +30,7 @@ pub fn lookup(id: &str) -> Option<(&'static str, Runner)> {
         "C11" => ("C11", c11::run as Runner),
         "SMOKE" => ("SMOKE", smoke::run as Runner),
         "C12" => ("C12", c12::run as Runner),
+        "C13" => ("C13", c13::run as Runner),
         "C14" => ("C14", c14::run as Runner),
         "C15" => ("C15", c15::run as Runner),
         "C16" => ("C16", c16::run as Runner),
